@@ -138,6 +138,11 @@ func c07body(c *xplore.Ctx) (text string, form string, fs []ev.Finding, skipped 
 	quotedName := false
 	g.Hook = func(idx int, k gram.Kind, role, def string) (string, string) {
 		if c.ChooseC(cParam, 2) == 0 {
+			// template text that merely looks like a placeholder: a string, a quoted name or a regex spelled `$p1`
+			// stays what it is, whatever is bound under p1
+			if (k == gram.STR || k == gram.IDENT || k == gram.REGEX) && c.ChooseC(gram.CSpell, 2) == 1 {
+				return "$p1", ""
+			}
 			return def, ""
 		}
 		name := fmt.Sprintf("p%d", len(subs)+1)
